@@ -340,14 +340,16 @@ pub fn promote<ID: Eq + Hash, C: Conditions>(
     access: Access<C>,
 ) -> Result<GroupMembersState<ID, C>, GroupMembershipError<ID>> {
     if let Some(member) = state.members.get(&promoted) {
-        // No action is required if the member is already set to the highest access level.
-        let new_state = if member.is_manager() {
-            state
+        // No modification is required if the member is already set to the highest access level.
+        // We still pass through the validation of the actor and the member, with the current
+        // access level, so that an unauthorised actor can never have a promotion accepted.
+        let access = if member.is_manager() {
+            member.access.clone()
         } else {
-            modify(state, promoter, promoted, access)?
+            access
         };
 
-        Ok(new_state)
+        modify(state, promoter, promoted, access)
     } else {
         Err(GroupMembershipError::UnrecognisedMember(promoted))
     }
@@ -368,14 +370,16 @@ pub fn demote<ID: Eq + Hash, C: Conditions>(
     access: Access<C>,
 ) -> Result<GroupMembersState<ID, C>, GroupMembershipError<ID>> {
     if let Some(member) = state.members.get(&demoted) {
-        // No action is required if the member is already set to the lowest access level.
-        let new_state = if member.is_puller() {
-            state
+        // No modification is required if the member is already set to the lowest access level.
+        // We still pass through the validation of the actor and the member, with the current
+        // access level, so that an unauthorised actor can never have a demotion accepted.
+        let access = if member.is_puller() {
+            member.access.clone()
         } else {
-            modify(state, demoter, demoted, access)?
+            access
         };
 
-        Ok(new_state)
+        modify(state, demoter, demoted, access)
     } else {
         Err(GroupMembershipError::UnrecognisedMember(demoted))
     }
